@@ -56,6 +56,18 @@ def run(tier, vd):
     r4["viol"] = [v for v in res4["viol"] if v["rule"] in ("Q2", "PANIC")]
     report_viols(vd, "C13", r4, {"world": "dhcp", "seed": sd}, lambda v: {"rule": v["rule"], "world": "dhcp", "why": v["p"][-1] if v["p"] else None}, lambda v: "dhcp %s %s" % (v["rule"], v["p"]))
 
+    # 5. DNS socket: concurrent queries at different back-off stages, early (probe) polls
+    dfz = []
+    for k in range(3 if tier == "quick" else 8):
+        tf = os.path.join(OUT, "traces", "c13.dns.%d.ndjson" % k)
+        run_harness(exe, ["dns-random", "--seed", sd * 100 + 70 + k, "--runs", 300 if tier == "quick" else 1000, "--servers", 1, "--out", tf])
+        dfz.append(tf)
+    res5 = validate_traces("DnsTrace", dfz, parallel=8)
+    vd.add_validation(res5)
+    r5 = dict(res5)
+    r5["viol"] = [v for v in res5["viol"] if v["rule"] in ("Q1", "Q2", "PANIC")]
+    report_viols(vd, "C13", r5, {"world": "dns", "seed": sd}, lambda v: {"rule": v["rule"], "world": "dns"}, lambda v: "dns %s %s" % (v["rule"], v["p"]))
+
     def mut(e):
         if e.get("ev") == "poll" and e.get("kind") == "probe" and not e.get("out"):
             e["out"] = [{"et": "ip4", "proto": 6, "ty": -1, "len": 54}]
@@ -63,7 +75,7 @@ def run(tier, vd):
         return False
     canary_check(vd, "PollAtTrace", files[0], mut, "Q1", "c13.Q1")
     vd.cov["exhaustive"] = True
-    vd.assumptions += ["IGMP/MLD report frames are exempt (the property excludes their timers)", "DHCP lease and DNS fail-over timing under a talking server is covered by C18/C19",
+    vd.assumptions += ["IGMP/MLD report frames are exempt (the property excludes their timers)", "DHCP lease timing under a talking server is covered by C18; the DNS socket is probed here with concurrent queries, fail-over timing is C19's",
                        "fragment-pending deadlines are exercised by C12's world, not probed here"]
 
 
@@ -89,5 +101,17 @@ def replay(obj, vd):
         from checks import c18
         obj["property"] = "C13"
         c18.replay(obj, vd)
+    elif w == "dns":
+        run_harness(exe, ["dns-random", "--seed", ev0["seed"], "--runs", ev0["run"] + 1, "--servers", ev0["cfg"]["servers"], "--out", tf])
+        runs = split_runs(tf)
+        with open(tf, "w") as f:
+            for e in runs[ev0["run"]]:
+                f.write(json.dumps(e) + "\n")
+        res = validate_traces("DnsTrace", [tf], parallel=1)
+        vd.add_validation(res)
+        res = dict(res)
+        res["viol"] = [v for v in res["viol"] if v["rule"] in ("Q1", "Q2", "PANIC")]
+        report_viols(vd, "C13", res, obj["ctx"], lambda v: {"rule": v["rule"], "world": "dns"})
+        vd.add_model("replay only", FakeTlc())
     else:
         netcommon.replay(obj, vd, "C13")
